@@ -11,8 +11,9 @@ from harness.runner import run_property
 from harness.trace import Run, result_str
 
 PROP = "C06"
-THEOREMS = ["Lbfgsb.C06.restore_pairs", "Lbfgsb.C06.restore_keeps_most_recent", "Lbfgsb.C06.restore_roundtrip", "Lbfgsb.C06.restart_noiter_same_pairs"]
-MODULES = ["LbfgsbVerif.Props.C06", "LbfgsbVerif.Props.C06Run"]
+THEOREMS = ["Lbfgsb.C06.restore_pairs", "Lbfgsb.C06.restore_keeps_most_recent", "Lbfgsb.C06.restore_roundtrip", "Lbfgsb.C06.restart_noiter_same_pairs",
+            "Lbfgsb.C06.restart_state", "Lbfgsb.C06.restart_continues", "Lbfgsb.C06.restart_same_result"]
+MODULES = ["LbfgsbVerif.Props.C06", "LbfgsbVerif.Props.C06Run", "LbfgsbVerif.Props.C06Sim"]
 
 
 def pairs(r):
